@@ -340,6 +340,22 @@ func (c *Ctx) evalExpr(e *Expr, env *Env) *Val {
 			c.specErr("unknown operator %s", e.Name)
 			return a
 		}
+		if (op == token.EQL || op == token.NEQ) && (a.K == VSlice) != (b.K == VSlice) {
+			// slice == nil / slice != nil: the nil slice has no backing array
+			sl, other := a, b
+			if b.K == VSlice {
+				sl, other = b, a
+			}
+			if other.K == VScalar && other.Lit != nil && other.Lit.Sign() == 0 {
+				// (the same encoding as the code's own comparison with the nil slice value)
+				z := c.idxConst(0)
+				s := sAnd(sEq(sl.Arr, "0"), sEq(sl.Off, z), sEq(sl.Len, z), sEq(sl.Cap, z))
+				if op == token.NEQ {
+					s = sNot(s)
+				}
+				return &Val{K: VScalar, T: types.Typ[types.Bool], S: s}
+			}
+		}
 		if (op == token.EQL || op == token.NEQ) && a.Lit == nil && b.Lit == nil && (a.K != VScalar || b.K != VScalar) {
 			s := c.eqVal(a, b)
 			if op == token.NEQ {
